@@ -175,8 +175,15 @@ def get_newly_imported_items(
     gatherer = GatherImportsVisitor(context)
     source_module.visit(gatherer)
     source_imports = _all_import_items(gatherer)
+    # Once the source has `from m import *`, the gatherer no longer records the
+    # names it imports from m explicitly: never take imports from m for new.
+    star_imported = {m for m, objs in gatherer.object_mapping.items() if "*" in objs}
 
-    return list(set(stub_imports).difference(source_imports))
+    return [
+        item
+        for item in set(stub_imports).difference(source_imports)
+        if item.module_name not in star_imported
+    ]
 
 
 def apply_stub_using_libcst(
